@@ -27,6 +27,12 @@ NatOf(f) ==
     [] f = "CqlValue::Int" -> {"int"} [] f = "CqlValue::Text" -> {"ascii", "text"}
     [] OTHER -> {}
 
+\* dynamic UDT values: every field of the VALUE must exist in the column's UDT with a fitting type (fields of the
+\* type that the value lacks are sent as null)
+UdtNames == [x \in {"CqlValue::Udt{a,b}", "CqlValue::Udt{b,a}", "CqlValue::Udt{a}", "CqlValue::Udt{a,x}", "CqlValue::Udt{a,b,x}"} |->
+               CASE x = "CqlValue::Udt{a}" -> {"a"} [] x = "CqlValue::Udt{a,x}" -> {"a", "x"} [] x = "CqlValue::Udt{a,b,x}" -> {"a", "b", "x"}
+                 [] OTHER -> {"a", "b"}]
+UdtFieldT(n) == IF n = "b" THEN {"ascii", "text"} ELSE {"int"}
 IsNative(T, names) == T.k = "native" /\ T.n \in names
 
 \* wrappers that do not change the fit
@@ -51,6 +57,9 @@ Fits(f0, T, ser) ==
     [] f = "HashMap<String,Vec<i32>>" -> T.k = "map" /\ Fits("String", T.a, ser) /\ Fits("Vec<i32>", T.b, ser)
     [] f = "(i32,String)" -> T.k = "tuple" /\ (IF ser THEN Len(T.ts) >= 2 ELSE Len(T.ts) = 2)
                              /\ Fits("i32", T.ts[1], ser) /\ Fits("String", T.ts[2], ser)
+    [] f \in DOMAIN UdtNames -> IF ser THEN T.k = "udt" /\ \A n \in UdtNames[f] : \E i \in 1..Len(T.fs) : T.fs[i].n = n /\ IsNative(T.fs[i].t, UdtFieldT(n))
+                                ELSE TRUE                        \* a dynamic value reads anything
+    [] f = "Vec<CqlValue::Udt{a,x}>" -> T.k \in {"list", "set", "vector"} /\ (ser => Fits("CqlValue::Udt{a,x}", T.e, ser))
     [] f = "(i32,)" -> T.k = "tuple" /\ (IF ser THEN Len(T.ts) >= 1 ELSE Len(T.ts) = 1) /\ Fits("i32", T.ts[1], ser)
     [] OTHER -> FALSE
 
